@@ -38,7 +38,7 @@ pub fn impl_ebml_specification(original: &mut ItemEnum) -> Result<TokenStream> {
 
     let map: HashMap<_, _> = input.variants.iter().map(|var|(&var.ident, var)).collect();
     for origin in &input.variants {
-        if !matches!(origin.data_type_attr.0, TagDataType::Master) && origin.path_attr.is_some() {
+        if origin.path_attr.is_some() {
             validate_path(origin, &map)?;
         }
     }
@@ -53,14 +53,15 @@ pub fn impl_ebml_specification(original: &mut ItemEnum) -> Result<TokenStream> {
     ))
 }
 
-// verify all parents are Master type elements and their path lines up with this item's path
+// verify the parent is a Master type element and this item's path is the parent's path followed by the parent
+// (every item with a path is checked, so the chain of parents is covered without following it from here)
 fn validate_path(origin: &crate::ast::Variant, variants_map: &HashMap<&Ident, &crate::ast::Variant>) -> Result<()> {
     // Only validate the element if it has a path attribute
     if let Some(path_parts) = origin.path_attr.as_ref().map(|(path, _)| &path.parts) {
         // Only validate if there is a specific parent element
-        if let Some(parent) = path_parts.iter().rev().filter_map(|p| {
+        if let Some((parent_index, parent)) = path_parts.iter().enumerate().rev().filter_map(|(index, p)| {
             if let PathPart::Ident(ident) = p {
-                Some(ident)
+                Some((index, ident))
             } else {
                 None
             }
@@ -70,13 +71,16 @@ fn validate_path(origin: &crate::ast::Variant, variants_map: &HashMap<&Ident, &c
                 return Err(Error::new_spanned(parent.original, "Parents must be of Master type"))
             }
 
+            let parent_path_len = parent.path_attr.as_ref().map_or(0, |(parent_path, _)| parent_path.parts.len());
+            if parent_path_len != parent_index {
+                return Err(Error::new_spanned(origin.original, format!("Path did not align with parent [{}] path.", parent.ident)));
+            }
             if let Some((parent_path, _)) = parent.path_attr.as_ref() {
                 for i in 0..parent_path.parts.len() {
                     if parent_path.parts[i] != path_parts[i] {
                         return Err(Error::new_spanned(origin.original, format!("Path segment [{}] did not align with parent [{}] path.", path_parts[i], parent.ident)));
                     }
                 }
-                validate_path(parent, variants_map)?;
             }
         }
     }
